@@ -68,6 +68,9 @@ class T:
     def __neg__(self):
         return T({w: -c for w, c in self.terms.items()})
 
+    def __pos__(self):
+        return self
+
     def __sub__(self, o):
         if not isinstance(o, T):
             return NotImplemented
@@ -161,6 +164,9 @@ class W:
 
     def __neg__(self):
         return W(-self.a)
+
+    def __pos__(self):
+        return self
 
     def __mul__(self, o):
         return W(self.a * o) if isinstance(o, (int, float, complex)) else NotImplemented
